@@ -9,13 +9,16 @@ CONSTANTS
   Uris = {}
   Want <- WantAll
   CapOff = {}
-  TTLPos = FALSE
+  TTLPos = TRUE
   D = 0
   MaxTime = 0
   MaxChanges = 2
   MaxUpdates = 0
   MaxCalls = 2
   NPages = 2
+  ListenOwns = TRUE
+  ResubRace = TRUE
+  GenCheck = TRUE
   ModernUnsub = FALSE
   ForeignUnsub = FALSE
   Stepwise = FALSE
